@@ -1678,6 +1678,52 @@ CLEANUP:
 	return qB;
 }
 
+/* a basis is well formed if every status is a legal code and exactly nrows
+ * variables are basic */
+static int check_basis_arrays (
+	const char *cstat,
+	const char *rstat,
+	int nstruct,
+	int nrows)
+{
+	int rval = 0;
+	int i, nbas = 0;
+
+	for (i = 0; i < nstruct; i++)
+	{
+		if (cstat[i] == QS_COL_BSTAT_BASIC)
+			nbas++;
+		else if (cstat[i] != QS_COL_BSTAT_LOWER && cstat[i] != QS_COL_BSTAT_UPPER &&
+						 cstat[i] != QS_COL_BSTAT_FREE)
+		{
+			QSlog("illegal column status in basis");
+			rval = 1;
+			ILL_CLEANUP;
+		}
+	}
+	for (i = 0; i < nrows; i++)
+	{
+		if (rstat[i] == QS_ROW_BSTAT_BASIC)
+			nbas++;
+		else if (rstat[i] != QS_ROW_BSTAT_LOWER && rstat[i] != QS_ROW_BSTAT_UPPER)
+		{
+			QSlog("illegal row status in basis");
+			rval = 1;
+			ILL_CLEANUP;
+		}
+	}
+	if (nbas != nrows)
+	{
+		QSlog("basis does not have exactly one basic variable per row");
+		rval = 1;
+		ILL_CLEANUP;
+	}
+
+CLEANUP:
+
+	EG_RETURN (rval);
+}
+
 EGLPNUM_TYPENAME_QSLIB_INTERFACE int EGLPNUM_TYPENAME_QSload_basis (
 	EGLPNUM_TYPENAME_QSdata * p,
 	QSbasis * B)
@@ -1693,6 +1739,10 @@ EGLPNUM_TYPENAME_QSLIB_INTERFACE int EGLPNUM_TYPENAME_QSload_basis (
 		rval = 1;
 		goto CLEANUP;
 	}
+
+	/* check the new basis before the stored one is given up */
+	rval = check_basis_arrays (B->cstat, B->rstat, B->nstruct, B->nrows);
+	CHECKRVALG (rval, CLEANUP);
 
 	if (p->basis == 0)
 	{
@@ -1769,6 +1819,10 @@ EGLPNUM_TYPENAME_QSLIB_INTERFACE int EGLPNUM_TYPENAME_QSload_basis_array (
 		rval = 1;
 		goto CLEANUP;
 	}
+
+	/* check the new basis before the stored one is given up */
+	rval = check_basis_arrays (cstat, rstat, qslp->nstruct, qslp->nrows);
+	CHECKRVALG (rval, CLEANUP);
 
 	if (p->basis == 0)
 	{
